@@ -445,7 +445,9 @@ impl Model {
               Sub::One(Ix::Var(y)) => matches!(s.get(y).map(|b| &b.v), Some(SV::Mat(k, ..)) if k == "bool"),
               _ => false,
             };
-            if by_mask { v.fault = Some("mask-with-vector-source".into()); }
+            // Mech reads the source at the mask positions (pinned by its suite), so whether this is
+            // accepted depends on the data: never demanded, only checked when it succeeds or fails
+            if by_mask { v.fault = Some("mask-with-vector-source".into()); v.must = Must::Either; }
             return v;
           }
           _ => return self.must_err("f6-source-kind", combo),
